@@ -278,6 +278,10 @@ class PVLParser(object):
                     parsing = True
                 else:
                     return m
+            except (LexerError, ParseError):
+                # These are real errors in the text met by the hook, not
+                # the hook declining to do anything.
+                raise
             except Exception:
                 pass
 
@@ -359,7 +363,7 @@ class PVLParser(object):
                             (agg, keep_parsing) = self.parse_module_post_hook(
                                 agg, tokens
                             )
-                        except LexerError:
+                        except (LexerError, ParseError):
                             raise
                         except Exception:
                             keep_parsing = False
